@@ -70,6 +70,9 @@ class Profile:
     p_inspect: int = 10                 # read-only inspection calls at every quiescent point
     p_exc: int = 25                     # among raising jobs: a builtin exception class
     p_label: int = 10                   # an odd label (braces, quotes, %, newline...)
+    p_rerun: int = 0                    # the judged run is the second run of the same objects
+    p_wide: int = 3                     # % of cases whose top scheduler is wide (12..130 jobs)
+    p_watch: int = 8                    # a Watch object is passed (shared by the whole tree)
     p_big: int = 8                      # % of schedulers that may have up to big_members
     big_members: int = 9
     force_nested: int = 0               # % of cases whose top has a nested scheduler for sure
@@ -79,6 +82,7 @@ class Profile:
 
 
 GENERAL = Profile()
+WIDE_SIZES = [12, 17, 20, 33, 40, 51, 65, 101, 130, 260]
 ODD_LABELS = ['{}', '{0}', '{x}', "awk '{print $1}'", '%s %d', '100%', 'a "quoted" one',
               'two\nlines', '', ' ', 'é→中', '${HOME}', '}{', 'x' * 60]
 EXC_NAMES = ['TimeoutError', 'KeyError', 'ValueError', 'OSError', 'RuntimeError',
@@ -152,11 +156,15 @@ def _draw_sched(draw, prof, depth, under_timeout, budget, top=False):
     members = []
     edges = []
     taint = []
-    forced = top and prof.force_nested and chance(draw, prof.force_nested)
+    wide = top and chance(draw, prof.p_wide)
+    if wide:
+        # size thresholds (slices, batches, id widths...) sit beyond the usual small cases
+        n = draw(st.sampled_from(WIDE_SIZES))
+    forced = top and not wide and prof.force_nested and chance(draw, prof.force_nested)
     forced_at = draw(st.integers(0, n - 1)) if forced and n else -1
     for j in range(n):
-        if depth < prof.max_depth and budget[0] > 2 and (j == forced_at
-                                                         or chance(draw, prof.p_nested)):
+        if not wide and depth < prof.max_depth and budget[0] > 2 and (
+                j == forced_at or chance(draw, prof.p_nested)):
             member = _draw_sched(draw, prof, depth + 1, under, budget)
         else:
             member = _draw_job(draw, prof, wild)
@@ -165,9 +173,13 @@ def _draw_sched(draw, prof, depth, under_timeout, budget, top=False):
         if never and not wild:
             member['forever'] = True
         preds = []
-        for i in range(j):
-            if not chance(draw, prof.p_edge):
-                continue
+        if wide:
+            # sparse: at most two requirements, drawn among the earlier members
+            cands = [draw(st.integers(0, j - 1)) for _ in range(draw(st.integers(0, 2)))] \
+                if j else []
+        else:
+            cands = [i for i in range(j) if chance(draw, prof.p_edge)]
+        for i in sorted(set(cands)):
             if taint[i] and not member['forever'] and not wild:
                 continue
             preds.append(i)
@@ -195,7 +207,8 @@ def _draw_sched(draw, prof, depth, under_timeout, budget, top=False):
         members=members, edges=edges,
         order=list(draw(st.permutations(list(range(n))))) if n > 1 else list(range(n)),
         build=draw(weighted((('ctor', 3), ('add', 2), ('update', 1), ('mixed', 1)))),
-        wild=wild, late_attrs=chance(draw, prof.p_late_attrs))
+        wild=wild, late_attrs=chance(draw, prof.p_late_attrs),
+        watch=chance(draw, prof.p_watch))
     if chance(draw, prof.p_label):
         sched['label'] = draw(st.sampled_from(ODD_LABELS))
     if window and not wild:
@@ -205,6 +218,14 @@ def _draw_sched(draw, prof, depth, under_timeout, budget, top=False):
     if top:
         sched['cls'] = 'pure' if chance(draw, prof.p_pure_top) else 'nestable'
     return sched
+
+
+def _force_abstract(spec):
+    for m in spec['members']:
+        if m['kind'] == 'job':
+            m['cls'] = 'abstract'
+        else:
+            _force_abstract(m)
 
 
 def assign_ids(spec):
@@ -228,6 +249,9 @@ def scenarios(draw, prof=GENERAL):
     budget = [prof.max_jobs]
     top = _draw_sched(draw, prof, 0, False, budget, top=True)
     top['inspect'] = chance(draw, prof.p_inspect)
+    if chance(draw, prof.p_rerun):
+        top['rerun'] = True
+        _force_abstract(top)        # a coroutine object cannot be awaited twice
     return assign_ids(top)
 
 
